@@ -146,6 +146,25 @@ pub fn rungs() -> Vec<Rung> {
             Case { prior: vec![prior], input }
         }));
     }
+    // ---- a cached template declaring one field of n bytes; 200 packets whose data set / flowset holds ONE byte: the
+    // declared length may not cause allocation or work for bytes that are not there
+    for (pn, ty, what) in [("ipfix", 82u16, "string"), ("ipfix", 600, "unknown-type"), ("v9", 96, "string"), ("v9", 95, "byte-vector")] {
+        let ipfix = pn == "ipfix";
+        v.push(rung(&format!("{}-declared-{}-length-n-over-1-byte-body-x-200-packets", pn, what), 65534, move |n| {
+            let f = vec![fs(ty, n as u16)];
+            let (prior, one) = if ipfix {
+                (ipfix_tpl_msg(256, &f), ipfix_message(&IpfixMsg::new(vec![IpfixSet::Data(256, vec![0x41])])))
+            } else {
+                (v9_tpl_packet(256, &f), v9_packet(&V9Pkt::new(vec![V9Set::Data(256, vec![0x41])])))
+            };
+            Case { prior: vec![prior], input: (0..200).flat_map(|_| one.clone()).collect() }
+        }));
+    }
+    // variable-length element whose PREFIX announces n bytes over an empty rest
+    v.push(rung("ipfix-varlen-prefix-announcing-n-bytes-over-nothing-x-200-messages", 65535, |n| {
+        let one = ipfix_message(&IpfixMsg::new(vec![IpfixSet::Data(256, vec![0xff, (n >> 8) as u8, n as u8])]));
+        Case { prior: vec![ipfix_tpl_msg(256, &[fs(82, 65535)])], input: (0..200).flat_map(|_| one.clone()).collect() }
+    }));
     // ---- under-declared fixed-width fields: nf IPv4 fields declared with length 0 (the decoder reads 4 bytes each
     // whatever the template says) + one 1-byte field: the declared record length (1) is far below the consumed one
     for ipfix in [false, true] {
